@@ -487,3 +487,128 @@ CODEC_CONTRACTS = []
 for _cls, _lib in (("SerpentSerializer", "serpent"), ("MarshalSerializer", "marshal"), ("JsonSerializer", "json"), ("MsgpackSerializer", "msgpack")):
     for _meth, _base in (("dumps", _Dumps), ("dumpsCall", _DumpsCall), ("loads", _Loads), ("loadsCall", _LoadsCall)):
         CODEC_CONTRACTS.append(_mk(_base, _cls, _lib, _meth))
+
+
+# ----------------------------------------------------------------------------------------------------------------------
+# msgpack: the `long` extension (integers beyond 64 bit) - default() and ext_hook() must be inverse
+from pyvc.engine import int_to_str                               # noqa: E402
+from specs.pystruct import ascii_enc, ascii_dec, is_ascii_s, is_ascii_b, ascii_enc_facts, ascii_dec_facts   # noqa: E402
+from specs.strings import int_parses, int_val, int_facts         # noqa: E402
+
+for _q in ("builtins.complex", "datetime.datetime", "datetime.date", "decimal.Decimal", "numbers.Number", "array.array"):
+    R.glob(_q, VClass(_q, None), "a class object (only used in isinstance tests)")
+
+
+@R.model("msgpack_replacements")
+class NoReplacements:
+    """MsgpackSerializer.__type_replacements: assumed to hold no replacement for the builtin number types"""
+
+    def getattr(self, E, st, obj, name):
+        return None
+
+    def m_get(self, E, st, obj, args, kw):
+        return [Res(st, args[1] if len(args) > 1 else NONE)]
+
+    methods = {"get": m_get}
+
+
+@R.model("Pyro5.serializers.MsgpackSerializer")
+class MsgpackSelf:
+    def getattr(self, E, st, obj, name):
+        if name == "_MsgpackSerializer__type_replacements":
+            return [Res(st, VObj(-9, "msgpack_replacements"))]
+        return None
+
+    methods = {}
+
+
+@R.spec("msgpack.ExtType", doc="msgpack.ExtType(code, data): a pair")
+def ext_type(E, st, args, kw):
+    return [Res(st, st.new_obj("msgpack.ExtType", code=args[0], data=args[1]))]
+
+
+_prev_int = R.specs.get("builtins.int")
+
+
+@R.spec("builtins.int", doc="int(<bytes>): the integer the ASCII text of the bytes spells (int_val of its decoding) or ValueError")
+def b_int_bytes(E, st, args, kw):
+    v = args[0]
+    if isinstance(v, VBytes) and len(args) == 1:
+        st.assume(*ascii_dec_facts(v.e))
+        t = ascii_dec(v.e)
+        out = []
+        for s2, ok in E.branch(st, z3.And(is_ascii_b(v.e), int_parses(t))):
+            out.append(Res(s2, VInt(int_val(t))) if ok else E.raise_(s2, "builtins.ValueError"))
+        return out
+    return _prev_int(E, st, args, kw)
+
+
+_prev_isinstance = R.specs.get("builtins.isinstance")
+
+
+@R.spec("builtins.isinstance", doc="isinstance(<int>, numbers.Number) is True; otherwise as before")
+def b_isinstance_num(E, st, args, kw):
+    v, c = args
+    if isinstance(v, VInt) and isinstance(c, VClass) and c.qname == "numbers.Number":
+        return [Res(st, VBool(True))]
+    return _prev_isinstance(E, st, args, kw)
+
+
+@R.contract
+class MsgpackDefaultLong(Contract):
+    name = "Pyro5.serializers.MsgpackSerializer.default#long"
+    real_name = "Pyro5.serializers.MsgpackSerializer.default"
+    props = ("C01",)
+    raises = {}
+    no_join = True
+    trusted = ("no type replacement is registered for int; str(n) is the decimal text of n, which is ASCII",)
+
+    def setup(self, E, st):
+        self.n = z3.Const("n", IntS)
+        st.assume(is_ascii_s(int_to_str(self.n)))
+        return {"self": st.new_obj("Pyro5.serializers.MsgpackSerializer"), "obj": VInt(self.n)}
+
+    def ensures(self, E, old, st, a, result):
+        ok = isinstance(result, VObj) and result.cls == "msgpack.ExtType"
+        if not ok:
+            return [("an integer the wire format cannot hold becomes a `long` extension value", z3.BoolVal(False))]
+        code, data = st.get(result, "code"), st.get(result, "data")
+        return [("extension code 0x31", code.e == 0x31 if isinstance(code, VInt) else z3.BoolVal(False)),
+                ("its payload is the ASCII decimal text of the integer", data.e == ascii_enc(int_to_str(self.n)) if isinstance(data, VBytes) else z3.BoolVal(False))]
+
+
+@R.contract
+class MsgpackExtHookLong(Contract):
+    name = "Pyro5.serializers.MsgpackSerializer.ext_hook#long"
+    real_name = "Pyro5.serializers.MsgpackSerializer.ext_hook"
+    props = ("C01",)
+    raises = {"builtins.ValueError": "x_bad"}
+    no_join = True
+
+    def setup(self, E, st):
+        self.data = z3.Const("ext_data", BytesS)
+        return {"self": st.new_obj("Pyro5.serializers.MsgpackSerializer"), "code": VInt(0x31), "data": VBytes(self.data)}
+
+    def ensures(self, E, old, st, a, result):
+        t = ascii_dec(self.data)
+        return [("a `long` extension value decodes to the integer its ASCII text spells",
+                 z3.And(is_ascii_b(self.data), int_parses(t), result.e == int_val(t)) if isinstance(result, VInt) else z3.BoolVal(False))]
+
+    def x_bad(self, E, old, st, a, exc):
+        t = ascii_dec(self.data)
+        return [("refused only if the payload is not the ASCII text of an integer", z3.Not(z3.And(is_ascii_b(self.data), int_parses(t))))]
+
+
+@R.lemma("C01:msgpack-long-roundtrip", props=("C01",))
+def msgpack_long_roundtrip(E):
+    """over the two contracts above: for every integer n, ext_hook(0x31, default(n).data) == n"""
+    from pyvc.engine import State
+    st = State()
+    n = z3.Const("n", IntS)
+    s = int_to_str(n)
+    d = ascii_enc(s)
+    # default's postcondition gives the payload d; ext_hook's contract on d: accepted iff ascii and parses, value int_val(ascii_dec(d))
+    st.assume(is_ascii_s(s), *ascii_enc_facts(s))
+    st.assume(*int_facts(n))
+    E.oblige(st, "ext_hook accepts what default produced", z3.And(is_ascii_b(d), int_parses(ascii_dec(d))), kind="lemma")
+    E.oblige(st, "... and yields the integer that was sent", int_val(ascii_dec(d)) == n, kind="lemma")
